@@ -119,3 +119,89 @@ func TestVP_C02_Concurrent(t *testing.T) {
 		st.Case(fmt.Sprintf("g=%v k=%d", g, k), g[0] >= 2 && g[1] >= 2 && (g[0]+g[1])*k >= 1000)
 	})
 }
+
+// TestVP_C02_Traffic: sending interleaved with receiving. Between the Encrypt calls each
+// endpoint is handed inbound messages: genuine ones from the other end (in order, skipped
+// ahead, replayed), and damaged or forged ones (bit flips anywhere, truncations, a valid
+// direction prefix with a generated counter and garbage behind it). Whatever Decrypt makes
+// of them, the nonces an endpoint seals with stay distinct, direction-separated and gap-free.
+func TestVP_C02_Traffic(t *testing.T) {
+	st := vp.NewStats("C02", "traffic", "one session; 20-400 steps, each an Encrypt on one endpoint or a delivery to one endpoint (genuine in order / skipped ahead / replayed / bit-flipped / truncated / forged counter incl. values around the endpoint's own send counter); all sealed nonces distinct, direction-separated, gap-free; non-trivial = an endpoint received a rejected message while it had sent more than it had received, and sealed again afterwards")
+	defer st.Flush()
+	rapid.Check(t, func(t *rapid.T) {
+		keys := vpC02Keys(t, rapid.Uint64().Draw(t, "id"))
+		steps := rapid.IntRange(20, 400).Draw(t, "steps")
+		var nonces [2][][12]byte
+		var outbox [2][][]byte // sealed by end, not yet delivered
+		var sentAll [2][][]byte
+		recvOK := [2]int{}
+		rejectedWhileAhead, sealedAfter := [2]bool{}, false
+		for i := 0; i < steps; i++ {
+			end := rapid.IntRange(0, 1).Draw(t, fmt.Sprintf("end%d", i))
+			switch rapid.IntRange(0, 6).Draw(t, fmt.Sprintf("what%d", i)) {
+			case 0, 1, 2:
+				ct, err := keys[end].Encrypt(make([]byte, i%40))
+				if err != nil {
+					t.Fatalf("encrypt: %v", err)
+				}
+				var nn [12]byte
+				copy(nn[:], ct[:12])
+				nonces[end] = append(nonces[end], nn)
+				outbox[end] = append(outbox[end], ct)
+				sentAll[end] = append(sentAll[end], ct)
+				if rejectedWhileAhead[end] {
+					sealedAfter = true
+				}
+			case 3: // genuine delivery to `end` from the other side, possibly skipping ahead
+				o := 1 - end
+				if len(outbox[o]) == 0 {
+					continue
+				}
+				k := rapid.IntRange(0, len(outbox[o])-1).Draw(t, fmt.Sprintf("skip%d", i))
+				if _, err := keys[end].Decrypt(append([]byte(nil), outbox[o][k]...)); err == nil {
+					recvOK[end]++
+				}
+				outbox[o] = outbox[o][k+1:]
+			case 4: // replay of something already sent by the other side
+				o := 1 - end
+				if len(sentAll[o]) == 0 {
+					continue
+				}
+				keys[end].Decrypt(append([]byte(nil), sentAll[o][rapid.IntRange(0, len(sentAll[o])-1).Draw(t, fmt.Sprintf("rp%d", i))]...))
+			default: // damaged or forged
+				o := 1 - end
+				var msg []byte
+				if len(sentAll[o]) > 0 && rapid.Bool().Draw(t, fmt.Sprintf("fromReal%d", i)) {
+					msg = append([]byte(nil), sentAll[o][len(sentAll[o])-1]...)
+					if rapid.Bool().Draw(t, fmt.Sprintf("trunc%d", i)) && len(msg) > 13 {
+						msg = msg[:rapid.IntRange(12, len(msg)-1).Draw(t, fmt.Sprintf("tl%d", i))]
+					} else {
+						pos := rapid.IntRange(12, len(msg)-1).Draw(t, fmt.Sprintf("flip%d", i))
+						msg[pos] ^= 0x40
+					}
+				} else {
+					// the other side's direction prefix, a generated counter, garbage behind it
+					msg = make([]byte, 12+16+rapid.IntRange(0, 20).Draw(t, fmt.Sprintf("gl%d", i)))
+					if o == 1 {
+						msg[0] = 0x80
+					}
+					ctr := uint64(rapid.IntRange(0, len(nonces[end])+3).Draw(t, fmt.Sprintf("ctr%d", i)))
+					if rapid.IntRange(0, 3).Draw(t, fmt.Sprintf("far%d", i)) == 0 {
+						ctr = uint64(rapid.IntRange(0, 100000).Draw(t, fmt.Sprintf("farv%d", i)))
+					}
+					binary.BigEndian.PutUint64(msg[4:12], ctr)
+					for j := 12; j < len(msg); j++ {
+						msg[j] = byte(j * 7)
+					}
+				}
+				if _, err := keys[end].Decrypt(msg); err != nil && len(nonces[end]) > recvOK[end] {
+					rejectedWhileAhead[end] = true
+				}
+			}
+			if err := vpC02Verify(nonces); err != nil {
+				t.Fatalf("VPFAIL C02 %v (after step %d of a history that mixes sealing with genuine, replayed, damaged and forged deliveries)", err, i)
+			}
+		}
+		st.Case(fmt.Sprintf("steps=%d sent=%d/%d", steps, len(nonces[0]), len(nonces[1])), sealedAfter)
+	})
+}
